@@ -421,6 +421,26 @@ static void _GD_Delete(DIRFILE *restrict D, gd_entry_t *restrict E,
       } else
         _GD_ClearDerived(D, D->entry[j], del_list[i], 0);
 
+  /* A field being deleted may be registered as a client of the scalar fields
+   * its parameters came from: forget it there, or the next gd_put_constant on
+   * one of them would touch the freed entry */
+  for (j = 0; j < D->n_entries; ++j)
+    if (D->entry[j]->field_type == GD_CONST_ENTRY ||
+        D->entry[j]->field_type == GD_CARRAY_ENTRY)
+    {
+      struct gd_private_entry_ *Ce = D->entry[j]->e;
+      int k, kept = 0;
+
+      for (k = 0; k < Ce->u.scalar.n_client; ++k) {
+        for (i = 0; i < n_del; ++i)
+          if (Ce->u.scalar.client[k] == del_list[i])
+            break;
+        if (i == n_del)
+          Ce->u.scalar.client[kept++] = Ce->u.scalar.client[k];
+      }
+      Ce->u.scalar.n_client = kept;
+    }
+
   if (E->e->n_meta >= 0) {
     if (n_del > 1) {
       /* Sort the del list for easier searching */
